@@ -83,6 +83,20 @@ def build_driver():
     open(os.path.join(DRIVER_DIR, "target", "built-" + driver_hash()), "w").close()
 
 
+SERDE_DIR = os.path.join(VERIF, "serde-attrs")
+SERDE_BIN = os.path.join(SERDE_DIR, "target", "release", "serde-attrs")
+
+
+def build_serde_attrs():
+    src = os.path.join(SERDE_DIR, "src", "main.rs")
+    if os.path.exists(SERDE_BIN) and os.path.getmtime(SERDE_BIN) >= os.path.getmtime(src):
+        return
+    env = dict(os.environ, CARGO_NET_OFFLINE="true")
+    r = subprocess.run("cargo build --offline --release", shell=True, cwd=SERDE_DIR, env=env, stdout=subprocess.PIPE, stderr=subprocess.STDOUT, text=True)
+    if r.returncode != 0:
+        raise FactsError("serde-attrs build failed:\n" + r.stdout[-3000:])
+
+
 def _cargo_env(units_dir, tgt):
     env = dict(os.environ)
     env.update({
@@ -396,6 +410,43 @@ class Program:
     def metadata(self):
         with open(os.path.join(self.snap, "metadata.json")) as f:
             return json.load(f)
+
+    def serde_attrs(self):
+        """{(relative file, type name, line): record} read from the sources with syn (derive-helper
+        attributes are absent from HIR).  Cached per snapshot."""
+        if getattr(self, "_serde", None) is not None:
+            return self._serde
+        cache = os.path.join(self.snap, "serde-attrs.jsonl")
+        if not os.path.exists(cache):
+            build_serde_attrs()
+            files = sorted({a["span"].rsplit(":", 1)[0] for a in self.adts.values()})
+            paths = [os.path.join(REPO, f) for f in files if os.path.exists(os.path.join(REPO, f))]
+            r = subprocess.run([SERDE_BIN] + paths, stdout=subprocess.PIPE, stderr=subprocess.PIPE, text=True)
+            if r.returncode != 0:
+                raise FactsError("serde-attrs failed: " + r.stderr[-2000:])
+            with open(cache + ".tmp", "w") as f:
+                f.write(r.stdout)
+            os.replace(cache + ".tmp", cache)
+        out = {}
+        with open(cache) as f:
+            for line in f:
+                o = json.loads(line)
+                rel = os.path.relpath(o["file"], REPO)
+                out[(rel, o["name"], o["line"])] = o
+        self._serde = out
+        return out
+
+    def serde_of(self, adt):
+        """syn record of a compiler ADT record (or None when the type is macro-generated)"""
+        f, ln = adt["span"].rsplit(":", 1)
+        name = adt["name"].rsplit("::", 1)[-1]
+        sa = self.serde_attrs()
+        r = sa.get((f, name, int(ln)))
+        if r is None:
+            c = [v for (ff, nn, _), v in sa.items() if ff == f and nn == name]
+            if len(c) == 1:
+                r = c[0]
+        return r
 
     def units(self):
         with open(os.path.join(self.snap, "units.json")) as f:
